@@ -1,11 +1,13 @@
 (* Model of the per-event read loop of poller_epoll.go readWriteLoop (synchronous reading: LT, ET, ET+ONESHOT) and of the
    ONESHOT branch of Conn.AsyncRead (the same loop run by a task), against a kernel receive buffer and the three epoll
-   disciplines, as the code is after commits d9301f7, 47bebc7, 15e9d4b, 55f84ef:
+   disciplines, as the code is after commits d9301f7, 47bebc7, 15e9d4b, 55f84ef, 2333828:
 
      on an event with IN:   for i := 0; i < Max; i++ { n := read(buf); if n > 0 deliver buf[:n];
                                                         EAGAIN -> break; n < len(buf) -> break }
                             (ET: Max is 2^31-1, modelled as "no limit"; EINTR retries are not modelled)
      event also has RDHUP:  read until n <= 0, delivering every read (readToEOF); close
+                            (in the ONESHOT branch of AsyncRead the poller stores readEOF before it starts the one task of
+                            the event, and the task does the same after its loop: `hup` below is that flag)
      else, ONESHOT:         ResetPollerEvent (EPOLL_CTL_MOD re-arms the descriptor)
 
    Epoll (assumption K3), read side of one descriptor:
